@@ -138,7 +138,8 @@ def unit_solve_sylvester_KPM(nsub, with_aux, timeout_ms=20000, defaults=False):
         and the auxiliary vectors (whose contribution is added back exactly by the explicit energy-denominator term);
       * energies of every explicit set are the diagonal of V^dagger h_0 V; the Hamiltonian is rescaled with the bounds of the explicit
         energies (auxiliary ones excluded) and the explicit energies are rescaled with the same (a, b);
-      * row k of (Y @ P) / a is solved at the rescaled k-th energy of block index[0] with the requested atol / max_moments;
+      * row k of (Y @ P) / a is solved at the rescaled k-th energy of block index[0] with the requested atol / max_moments; the explicit part (the diagonal solver) gets
+        `eigenvalue_atol` as its degeneracy tolerance - never the KPM accuracy `atol`;
       * the KPM part is used exactly for the implicit column block and is added to the explicit part; zero stays zero."""
     fn = frontend.find("block_diagonalization", "solve_sylvester_KPM")
 
@@ -146,7 +147,7 @@ def unit_solve_sylvester_KPM(nsub, with_aux, timeout_ms=20000, defaults=False):
         h0 = T("h_0")
         vecs = [T(f"V{k}") for k in range(nsub)]
         aux = T("aux_vectors")
-        opts = {"atol": T("opt_atol"), "max_moments": T("opt_max_moments"), "eps": T("opt_eps")}
+        opts = {"atol": T("opt_atol"), "max_moments": T("opt_max_moments"), "eps": T("opt_eps"), "eigenvalue_atol": T("opt_eigenvalue_atol")}
         if defaults:
             opts = {}            # every option left to its default (solver_options given as an empty dict or as None)
         if with_aux:
@@ -223,8 +224,9 @@ def unit_solve_sylvester_KPM(nsub, with_aux, timeout_ms=20000, defaults=False):
                 want = [T("diagonal-of", T("MatMult", T("MatMult", T("Dagger", V), h0), V)) for V in all_vecs]
                 eng.oblige("energies-are-diag(V^dagger-h_0-V)-for-every-set-of-known-vectors", z3.BoolVal(len(es) == len(want) and all(term_eq_py(a, b) for a, b in zip(es, want))), detail=repr(es)[:300])
                 eng.oblige("auxiliary-vectors-are-the-implicit-basis-of-the-explicit-part", z3.BoolVal(vimp is all_vecs[-1]))
-                if "atol" in opts:
-                    eng.oblige("explicit-part-uses-the-requested-atol", z3.BoolVal(atol_x is opts["atol"]))
+                if "eigenvalue_atol" in opts:
+                    # which explicit energies count as equal is `eigenvalue_atol` - NOT the accuracy `atol` requested for the Green's function
+                    eng.oblige("explicit-part-uses-the-eigenvalue-tolerance-not-the-KPM-accuracy", z3.BoolVal(atol_x is opts["eigenvalue_atol"]), detail=repr(atol_x))
                 else:
                     eng.oblige("explicit-part-gets-a-numeric-default-tolerance", z3.BoolVal(isinstance(atol_x, (int, float)) and not isinstance(atol_x, bool) and 0 <= atol_x <= 1e-6),
                                detail=f"atol passed to solve_sylvester_diagonal: {atol_x!r} (None makes every explicit-explicit solve fail with a TypeError)")
